@@ -384,6 +384,19 @@ def judge(spec, tier="quick"):
     # the module's tables are untouched by make_trainable / get_all_parameters
     gotC_base = arrays(build(spec))
     # ---- write_trainables stores exactly the simulated values --------------------------
+    # between the last conversion to jax arrays (integrate / get_all_parameters) and write_trainables the user
+    # may change other rows with set(): write_trainables must store what the tables say plus the trainables
+    exp_w = {k: v.copy() for k, v in exp.items()}
+    a0 = spec["assignments"][0]
+    if a0["on"] == "nodes":
+        covered = {x for a in spec["assignments"] if a["key"] == a0["key"] for grp in _groups_for(spec, a) for x in grp}
+        free = [r for r in range(N) if r not in covered and (not a0["key"].startswith("HH_") or r in set(spec["hh_rows"]))]
+        if free:
+            lo, hi = RANGE[a0["key"]]
+            newval = 0.5 * (lo + hi) * 1.01
+            (gn.view_of(mC, free[:1]) if N > 1 else mC).set(a0["key"], float(newval))
+            exp_w[a0["key"]][free[0]] = newval
+            out.classes.append("set() between conversion and write_trainables")
     _, err = core.call(mC.write_trainables, params)
     if err:
         out.violate("raises:write_trainables", f"write_trainables raised {err.short()}", etype=err.etype, frame=err.frame)
@@ -391,7 +404,7 @@ def judge(spec, tier="quick"):
     mC.delete_trainables()
     gotW = arrays(mC)
     out.evals += 1
-    if not compare(out, gotW, exp, "write_trainables", spec, exact=False):
+    if not compare(out, gotW, exp_w, "write_trainables", spec, exact=False):
         return out
     # ---- simulate: three routes agree -----------------------------------------------------
     if spec["simulate"]:
